@@ -49,7 +49,12 @@ class Ctx:
     def ok(self, rule, site, msg, facts=None, nontrivial=True):
         self._add(OK, rule, site, msg, facts=facts, nontrivial=nontrivial)
 
-    def bad(self, rule, site, construct, msg, facts=None, node=None):
+    def bad(self, rule, site, construct, msg, facts=None, node=None, firm=False):
+        # firm: the construct is wrong whatever the functions around it do (an effect that is present, not a relation between
+        # pieces of code) - no downgrade
+        if firm:
+            self._add(BAD, rule, site, msg, construct=construct, facts=facts, node=node)
+            return
         # A function that calls a helper the reference tree does not have (and that could not be inlined, sa/canon.py S13)
         # keeps part of its behaviour in code no rule was confirmed on: a mismatch found there is reported as
         # inconclusive, not as a violation.
